@@ -4,5 +4,7 @@
 
 pub mod util;
 
+pub mod c03;
 pub mod c13;
+pub mod c14;
 pub mod c32;
